@@ -17,7 +17,7 @@ sink): those theorems do not depend on the queue type.
 counters before cleaning up) was repaired first (`reportBeforeFlushCleanup`), but a drop made between
 `_check_failure_counter` and the clean-up of the same poll — while the notifier runs for another thread (hook site 8),
 or by a thread that registers after the poll's cache refresh — was still lost when that thread had exited (finding F24,
-confirmed on the real code, `findings/F23_pinned_tree.txt`). Repair: the clean-up keeps a context whose counter is
+confirmed on the real code, `findings/F24_pinned_tree.txt`). Repair: the clean-up keeps a context whose counter is
 non-zero (`Cfg.cleanupKeepsUnreported`, extracted from the header). With it `removed → fail = 0` is an invariant of
 every schedule (`C08_removed_context_reported`), whatever the value of the older flag; without it both schedules lose
 a count (`C08_flush_cleanup_loses_count_unrepaired`, `C08_count_lost_between_check_and_cleanup`). The accounting
